@@ -278,7 +278,7 @@ func checkFragmentAt(t failer, col *evid.Collector, path []int, f fragment) {
 
 func TestC13Exhaustive(t *testing.T) {
 	defer silenceAs("exhaustive")()
-	col := evid.New("C13", "exhaustive", "invalid fragments (unterminated strings/regexps/blocks/parameter lists/switches, missing operands after every operator, assignment and compound assignment to non-variables, local outside a function, nested ternaries, illegal characters, lone & | ~, second default, stray closers, ...) placed in every composition of enclosing contexts (statement contexts: if/else/else-if/while/for/foreach/function/case/default bodies; expression contexts: conditions, iterables, switch subjects, case expressions, call arguments, array and hash elements, indexes, ternary arms and condition, parentheses, prefix and infix operands): exhaustive to depth 2 (thorough 3), random to depth 6; plus token-boundary truncations of valid programs that leave a bracket open; oracle: Prepare returns an error; every context path is first checked to Prepare cleanly with a valid filler; non-trivial = context depth >= 1; distinct by script text")
+	col := evid.New("C13", "exhaustive", "invalid fragments (unterminated strings/regexps/blocks/parameter lists/switches, missing operands after every operator, assignment and compound assignment to non-variables, local outside a function, nested ternaries, illegal characters, lone & | ~, second default, stray closers, ...) placed in every composition of enclosing contexts (statement contexts: if/else/else-if/while/for/foreach/function/case/default bodies; expression contexts: conditions, iterables, switch subjects, case expressions, call arguments, array and hash elements, indexes, ternary arms and condition, parentheses, prefix and infix operands): exhaustive to depth 2 (thorough 3), random to depth 6; plus token-boundary truncations of valid programs that leave a bracket open; oracle: Prepare returns an error, also when asked again and from a second evaluator with NoOptimize; every context path is first checked to Prepare cleanly with a valid filler; non-trivial = context depth >= 1; distinct by script text")
 	defer col.Flush()
 	replayKnown(t, col, "C13")
 	// sanity of the templates: every context path with a valid filler is accepted
